@@ -51,8 +51,8 @@ def leapOf (e : EvalRes) : LeapOutcome :=
 def initUntransformedOk (e : EvalRes) : Bool :=
   e.err.isNone && e.gradFinite
 
-/-- `init_state`: error → `LogpFailure`; `check_all` (finite log-density, finite position and gradient,
-    transformed gradient without zeros) → `BadInitGrad` -/
+/-- `init_state`: unrecoverable error → `LogpFailure`; recoverable error or a failed `check_all` (finite log-density,
+    finite position and gradient, transformed gradient without zeros) → `BadInitGrad` -/
 def initStateOk (e : EvalRes) : Bool :=
   e.err.isNone && e.logpFinite && e.gradFinite && e.gradNonzero
 
@@ -81,7 +81,12 @@ def allowed (isDraw : Bool) (r : Role) (e : EvalRes) : List CallOut :=
   let okSet : List CallOut := if isDraw then [.ok, .okDiverging] else [.ok]
   match r with
   | .initUntransformed => if initUntransformedOk e then okSet else [.err]
-  | .initState => if initStateOk e then okSet else [.err]
+  | .initState =>
+    if isDraw then
+      -- the step-size re-initialisation inside `draw` (`GlobalStrategy::adapt`): an unusable evaluation (`BadInitGrad`:
+      -- recoverable error, non-finite value, zero gradient) only skips the search; an unrecoverable error ends the call
+      (if e.err = some false then [.err] else okSet)
+    else if initStateOk e then okSet else [.err]
   | .initFlow => if e.err.isNone then okSet else [.err]
   | .trial => if trialOut e then okSet else [.err]
   | .trajectory =>
